@@ -142,7 +142,11 @@ func (p *nodePipeline) run() {
 		if err != nil {
 			req.complete(nil, err)
 			closeConn()
-			failPending(err)
+			// The requests behind it lose their connection, nothing more: the head's error is not
+			// theirs. In particular a MOVED/ASK answer to the head must not reach them as a redirect
+			// of their own - they would follow it (under ASKING, for keys that were never moved)
+			// although the node may already have executed them.
+			failPending(fmt.Errorf("node pipeline connection closed after an earlier request failed: %s: %s", p.node.address, err.Error()))
 			return
 		}
 		req.complete(replies, nil)
